@@ -409,6 +409,10 @@ func (m *tokenBucketWrapper) SetLimit(acquireResult *AcquireResult) bool {
 			if lastQPS < float64(localQPS) {
 				lastQPS = float64(localQPS)
 			}
+			if lastQPS > float64(m.qps) {
+				// the rate observed before the schema shrank must not lift the fall-back above the configured rate
+				lastQPS = float64(m.qps)
+			}
 			klog.V(2).Infof("[global tokenBucket] cluster=%q resize flowcontrol=%s qps=%v requestID=%v for error: %v",
 				m.fcc.cluster, m.fcc.name, lastQPS, acquireResult.requestTime, result.Error)
 
@@ -463,7 +467,15 @@ func (m *tokenBucketWrapper) Resize(qps uint32, burst uint32) bool {
 	if atomic.LoadUint32(&m.serverUnavailable) == 0 {
 		return m.FlowControl.Resize(qps, burst)
 	}
-	return false
+	// the server is unavailable: the local fall-back stays in force, but never above the new configured rate
+	lastQPS := m.meter.Rate()
+	if localQPS := m.fcc.local.localConfig.TokenBucket.QPS; lastQPS < float64(localQPS) {
+		lastQPS = float64(localQPS)
+	}
+	if lastQPS > float64(qps) {
+		lastQPS = float64(qps)
+	}
+	return m.FlowControl.Resize(uint32(lastQPS), uint32(lastQPS))
 }
 
 func (m *tokenBucketWrapper) TryAcquire() bool {
